@@ -109,7 +109,7 @@ def gen_run(rng, cfg):
                     op["gencls"] = rng.choice(["plain", "plain", "Upper", "UpperMore"])
             elif opk == "parse_file":
                 op["use_cpp"] = rng.random() < 0.4
-                if rng.random() < 0.3:
+                if rng.random() < 0.5:
                     op["default_parser"] = True  # parse_file(filename) without parser=
                 if faulty and rng.random() < 0.25:
                     k = rng.choice(["cpp-missing", "cpp-fails", "short-read"] if op["use_cpp"] else ["open-error", "decode-error", "short-read"])
@@ -173,9 +173,11 @@ def gen_run(rng, cfg):
             if bad:
                 not_for[str(j)] = bad
         a["markers"] = {"strings": strings, "line_block": i + 1, "not_for": not_for}
+    gc_plan = rng.choice([{"mode": "op-end"}, {"mode": "op-end"}, {"mode": "off"}, {"mode": "steps", "every": rng.choice([300, 2000, 10000])}])
     spec = {
         "property": "C13",
         "mode": mode,
+        "gc": gc_plan,
         "policy": policy,
         "actors": actors,
         "check_fresh": False,
